@@ -183,6 +183,85 @@ def check_rcrit(case):
     return out
 
 
+def check_setter_history(case):
+    """One reused ShapeFactor driven through a sequence of shape / aspect-ratio settings; after every setting each
+    factor at each query radius must be the description's factor at the aspect ratio that was set last, and
+    findRcrit must solve R = R_sphere * factor(aspect(R)) for that setting."""
+    from kawin.precipitation.parameters.ShapeFactors import ShapeFactor
+    out = Out()
+    first = case["ops"][0]
+    sf = ShapeFactor(first[1], _ar_fn(first[2]))
+    kinds = []
+    for i, op in enumerate(case["ops"]):
+        shape, spec = op[1], op[2]
+        arf = _ar_fn(spec)
+        if i > 0:
+            how = op[0]
+            if how == "shape":
+                sf.setPrecipitateShape(shape, arf)
+            elif how == "named":
+                {"needle": sf.setNeedleShape, "plate": sf.setPlateShape, "cubic": sf.setCuboidalShape}[shape](arf) if shape != "sphere" else sf.setSpherical()
+                if shape == "sphere":
+                    spec, arf = ["const", 1.0], 1.0
+            elif how == "ar":
+                shape = cur_shape
+                sf.setAspectRatio(arf)
+        cur_shape = shape
+        kinds.append(spec[0])
+        d = _desc(shape)
+        arfun = (lambda R, a=arf: np.full(np.shape(R), float(a))) if spec[0] == "const" else arf
+        R = np.array(case["R"], dtype=float)
+        for Rq in (R, float(R[0])):
+            ar = arfun(Rq)
+            for name in ("thermoFactor", "kineticFactor", "eqRadiusFactor", "normalRadii"):
+                want = np.asarray(getattr(d, name)(np.maximum(ar, 1.0)), dtype=float)
+                got = np.asarray(getattr(sf, name)(Rq), dtype=float)
+                if got.shape != want.shape or not np.allclose(got, want, rtol=1e-12, atol=0):
+                    out.fail("stale_setting", "after setting %d (%s %s %r; history %r) %s(%r) = %r, the description gives %r at the aspect ratio set last"
+                             % (i, op[0], shape, spec, kinds, name, np.asarray(Rq).tolist(), got.tolist(), want.tolist()), fn=name)
+                    return out
+        Rs, Rmax = case["Rs"], case["Rs"] * case["rmax_factor"]
+        res = lambda r: r / (Rs * float(d.thermoFactor(max(float(arfun(r)), 1.0)))) - 1
+        Rc = float(sf.findRcrit(Rs, Rmax))
+        if spec[0] == "const":
+            if abs(res(Rc)) > 1e-9:
+                out.fail("rcrit_after_history", "after setting %d (constant aspect ratio %r on %s; history %r) findRcrit returned %r, residual %r" % (i, spec[1], shape, kinds, Rc, res(Rc)))
+                return out
+        elif res(Rs) * res(Rmax) < 0 and not abs(res(Rc)) <= sf.tol * (1 + 1e-9):
+            out.fail("rcrit_after_history", "after setting %d (%r on %s; history %r) the root is bracketed but findRcrit returned %r with residual %r" % (i, spec, shape, kinds, Rc, res(Rc)))
+            return out
+    changes = sum(1 for a, b in zip(kinds, kinds[1:]) if (a == "const") != (b == "const"))
+    out.label("switches_%d" % min(changes, 3))
+    if any(a != "const" and b == "const" for a, b in zip(kinds, kinds[1:])):
+        out.label("callable_then_constant")
+    out.nt(changes >= 1)
+    return out
+
+
+@st.composite
+def _arspec(draw, R0):
+    kind = draw(st.sampled_from(["const", "const", "linear", "power", "sat"]))
+    if kind == "const":
+        return ["const", draw(st.one_of(st.just(1.0), st.floats(1, 50)))]
+    if kind == "linear":
+        return ["linear", draw(st.floats(1, 5)), draw(st.floats(0, 3)), R0]
+    if kind == "power":
+        return ["power", draw(st.floats(1, 5)), draw(st.floats(0, 1.5)), R0]
+    return ["sat", draw(st.floats(1, 50)), R0]
+
+
+@st.composite
+def _history(draw):
+    R0 = 10 ** draw(st.floats(-10, -8))
+    n = draw(st.integers(2, 6))
+    ops = [["shape", draw(st.sampled_from(SHAPES)), draw(_arspec(R0))]]
+    for _ in range(n - 1):
+        how = draw(st.sampled_from(["ar", "ar", "shape", "named"]))
+        ops.append([how, draw(st.sampled_from(SHAPES)), draw(_arspec(R0))])
+    R = draw(st.lists(st.floats(-10, -7).map(lambda e: 10 ** e), min_size=1, max_size=4))
+    return {"ops": ops, "R": R, "Rs": 10 ** draw(st.floats(-10, -8)), "rmax_factor": 10 ** draw(st.floats(0.01, 3))}
+
+
 @st.composite
 def _geom(draw):
     ar = draw(st.one_of(st.floats(0, 2).map(lambda e: 10 ** e), st.sampled_from([1.0, 1.0 + 1e-9, 1.0 + 1e-6, 1.001, 2.0, 100.0]), st.floats(1, 1.1)))
@@ -218,4 +297,6 @@ def clauses():
                rule="generator: shape x list of 1-6 aspect ratios incl. values below 1, passed as float array, int array and list; value/continuity at 1, scalar = array element, caller's array bit-identical; non-trivial: non-spherical shape and an entry below 1"),
         Clause("rcrit", _rcrit, check_rcrit, quick=4000, thorough=150000,
                rule="generator: shape x aspect-ratio function {constant, linear, power, saturating} of R x R_sphere 1e-10..1e-8 x Rmax/R_sphere 1..1000; non-trivial: non-spherical shape with a bracketed root (or constant aspect ratio > 1.001)"),
+        Clause("setter_history", _history, check_setter_history, quick=3000, thorough=100000,
+               rule="generator: one ShapeFactor object driven through 2-6 settings (setPrecipitateShape / setNeedleShape, setPlateShape, setCuboidalShape, setSpherical / setAspectRatio) mixing constant and radius-dependent aspect ratios; after every setting the factors at 1-4 radii (array and scalar call) equal the description's at the aspect ratio set last and findRcrit solves the equation for that setting; non-trivial: the history switches between a constant and a radius-dependent aspect ratio"),
     ]
